@@ -69,6 +69,7 @@ type Run struct {
 	faultCtx  string
 	faultedMod map[uint64]bool
 	Taints    map[uint64]string // UP SEID -> first known-finding trigger applied to the session
+	sharedTaint string
 	returned   map[int]*bool
 }
 
@@ -176,6 +177,17 @@ func (r *Run) DrawStrategy() {
 		s.SetPCT(r.Ch.Choose(7, "pct-d"), 20000)
 	}
 	s.ArmPreempt()
+	// "slow agent": in a quarter of the runs every scheduling step costs virtual time
+	switch r.Ch.Choose(8, "stepcost") {
+	case 1:
+		s.StepCost = 1000
+	case 2:
+		s.StepCost = 5000
+	case 3: // scheduling points before socket writes (drawn from the same choice: keeps older traces aligned)
+		s.IODen = 2
+	case 4:
+		s.IODen = 3
+	}
 	r.Skel("strat=" + s.Strat.String())
 }
 
@@ -281,6 +293,34 @@ func (r *Run) KillAgent() {
 }
 
 // AgentAlive: the incarnation has not panicked / exited / been killed.
+// AimAtTimer advances the clock so that a datagram sent now reaches the agent
+// at the instant the agent's next timer falls due (when that is within max), so
+// that the timer's task and the socket reader run concurrently. Returns whether
+// it aimed. A legal schedule: the peer merely picks its sending time.
+func (r *Run) AimAtTimer(max time.Duration) bool {
+	if !r.AgentAlive() {
+		return false
+	}
+	lat := int64(r.W.Net.ToAgent.LatMin)
+	var due []int64
+	for _, at := range r.Sim.TimersDue(r.Inc, int64(max)) {
+		if at-lat > r.Sim.NowNS() {
+			due = append(due, at)
+		}
+	}
+	if len(due) == 0 {
+		return false
+	}
+	if len(due) > 4 {
+		due = due[:4]
+	}
+	at := due[r.Ch.Choose(len(due), "aim-which")]
+	r.Sim.RunUntil(nil, at-lat)
+	r.Sim.Logf("aim: next datagram reaches the agent when its timer fires at %d", at)
+	r.Probe("aimed-at-timer")
+	return true
+}
+
 func (r *Run) AgentAlive() bool { return r.Inc != 0 && !r.Sim.IncDead(r.Inc) }
 
 // StopAgent calls Stop() from a fresh task of the incarnation (as the signal
